@@ -26,7 +26,7 @@ RULE = ("agent arm: 0-6 initial agents, 1-3 mutator systems at priorities above/
         "in ~25% of runs, real temporary files in ~10%; non-trivial = population changed inside >=1 timestep before the "
         "collector's turn (agent arm) / >=2 complete flush cycles with write_count>=1 and >=1 empty collection (file "
         "arm); distinct = abstract schedule shape"
-        "; also: composite function that keeps and updates ONE dict, empty-string records, environment object replaced between timesteps, systems removed next to the collector, stress runs with large write_count; rare switch for known finding F7, per-agent / composite functions given as falsy callable objects, a model class with its own `timestep` attribute, file collectors whose collect() returns a value")
+        "; also: composite function that keeps and updates ONE dict, empty-string records, environment object replaced between timesteps, systems removed next to the collector, stress runs with large write_count; rare switch for known finding F7, per-agent / composite functions given as falsy callable objects, a model class with its own `timestep` attribute, file collectors whose collect() returns a value or that override write_records()")
 COMPONENTS = {"real": ["ECAgent.Collectors.AgentCollector.collect", "FileCollector.execute/write_records", "Collector",
                        "ECAgent.Core scheduler and Environment", "builtins.open + OS (real-file runs only)"],
               "stub": ["open() as seen by ECAgent.Collectors -> simkit.simdisk.SimDisk (durable at flush/close/buffer "
@@ -34,7 +34,7 @@ COMPONENTS = {"real": ["ECAgent.Collectors.AgentCollector.collect", "FileCollect
 PROBES = ["empty_record_suppressed", "collector_off_window", "removed_by_higher_priority_same_step",
           "added_by_higher_priority_same_step", "changed_after_collector_turn", "composite_used", "value_zero_recorded",
           "crash_at_flush_boundary", "crash_mid_flush", "real_file", "composite_shared_dict", "empty_string_record", "environment_replaced", "system_removed_next_to_collector", "empty_collection", "empty_flush",
-          "preexisting_content", "two_file_collectors", "buffer_overflow_mid_flush", "falsy_callable_objects_as_functions", "model_with_own_timestep_attribute", "collect_returns_a_value"]
+          "preexisting_content", "two_file_collectors", "buffer_overflow_mid_flush", "falsy_callable_objects_as_functions", "model_with_own_timestep_attribute", "collect_returns_a_value", "write_records_overridden_by_the_user"]
 TECHNIQUE = "deterministic simulation: population changing on a seeded schedule inside timesteps vs a replaying reference; simulated disk with crash points and the conservation invariant file + held = collected"
 LEVEL_TEXT = ("Seeded search over population-change schedules, collector windows and disk behaviour; after every timestep the "
               "records equal the reference's and earlier records are untouched; for the file collector, after every disk event "
@@ -134,6 +134,7 @@ def generate(rng, tier):
     if sc["arm"] == "file":
         for c_ in sc["collectors"]:
             c_["returns"] = rng.random() < 0.15
+            c_["own_writer"] = rng.random() < 0.2
     return sc
 
 
@@ -437,6 +438,17 @@ class RecFile(COL.FileCollector):
             return rec if k else "nothing-collected;"
 
 
+class RecFileOwnWriter(RecFile):
+    """A file collector that describes itself how its records get into the file - write_records() overridden, as the class
+    documentation invites, without calling the base implementation. Counting and clearing stay the collector's business."""
+
+    def write_records(self):
+        f = getattr(COL, "open", open)(self.filename, self.filemode)
+        for record in self.records:
+            f.write(record)
+        f.close()
+
+
 class FileWorld:
     def __init__(self, ctx):
         self.ctx = ctx
@@ -480,7 +492,9 @@ def run_file_arm(sc, ctx):
                     f.write(spec["pre"])
             if spec["pre"]:
                 ctx.probe("preexisting_content")
-            c = RecFile(spec, m, w, fn)
+            c = (RecFileOwnWriter if spec.get("own_writer") else RecFile)(spec, m, w, fn)
+            if spec.get("own_writer"):
+                ctx.probe("write_records_overridden_by_the_user")
             ctx.expect_ok("setup-add", m.systems.add_system, c)
             cols.append(c)
         if len(cols) == 2:
